@@ -446,7 +446,7 @@ def _norm(v, L, depth=0):
       if k == "_netmask":
         d["netmask"] = _norm(x, L, depth + 1)
     d["__class__"] = type(v).__name__
-    for ca in ("tlv_type", "TYPE", "type", "subtype"):
+    for ca in ("tlv_type", "TYPE", "subtype"):
       if ca not in d and hasattr(v, ca):
         try:
           x = getattr(v, ca)
